@@ -811,7 +811,8 @@ func (i *importer) importSignalType(dbcSig *dbc.Signal) (*SignalType, error) {
 	}
 
 	sigSize := int(dbcSig.Size)
-	if sigSize == 1 && !signed {
+	// the flag type has a fixed range and conversion rule, it stands only for the signals that have the same
+	if sigSize == 1 && !signed && dbcSig.Factor == 1 && dbcSig.Offset == 0 && dbcSig.Min == 0 && dbcSig.Max == 1 {
 		return i.flagSigType, nil
 	}
 
